@@ -98,4 +98,26 @@ def proof_status(prop):
     info['hygiene'] = bad
     pr = check_props(prop)
     info.update(pr)
-    return ok and not bad and pr['ok'], info
+    chk_ok = True
+    if os.environ.get('VERIF_TIER') == 'thorough' and pr['ok']:
+        chk_ok, info['coqchk'] = coqchk(prop)
+        info['print_assumptions'] = (info.get('print_assumptions', '') + '\n-- coqchk -o Klepto.%s --\n%s' % (prop, info['coqchk']))[-3000:]
+        if not chk_ok:
+            info['log'] = 'coqchk: ' + info['coqchk']
+    return ok and not bad and pr['ok'] and chk_ok, info
+
+
+def coqchk(prop):
+    """independent re-check (coqchk) of the compiled property file and everything it loads; the context
+    summary must report no axioms and no disabled kernel check"""
+    try:
+        p = subprocess.run(['coqchk', '-silent', '-o'] + QFLAGS + ['Klepto.' + prop], cwd=COQ,
+                           stdout=subprocess.PIPE, stderr=subprocess.STDOUT, timeout=2400)
+    except subprocess.TimeoutExpired:
+        return False, 'coqchk timed out'
+    out = p.stdout.decode()
+    summ = out[out.index('CONTEXT SUMMARY'):] if 'CONTEXT SUMMARY' in out else out[-1500:]
+    summ = ' '.join(summ.split())
+    clean = p.returncode == 0 and 'Axioms: <none>' in summ and 'type-in-type: <none>' in summ and \
+        'unsafe (co)fixpoints: <none>' in summ and 'positivity is assumed: <none>' in summ
+    return clean, summ[:1500]
